@@ -22,17 +22,19 @@ def ctx(platform):
     translate() as a broken obligation — fall back to something usable so that the real code still runs through the oracle"""
     from gen import privgen
     if platform not in _ctx:
+        abort_ast = True
         try:
             spec = privgen.abort_spec(platform)
         except Exception:  # noqa: BLE001
             spec = ("none",)
+            abort_ast = False     # no single shape for the platform: `abort_for` measures it per case (per desired level)
             for asyncio_ in (False, True):     # sync and asyncio differ, or one is not a modelled shape: take a recognised one
                 try:
                     spec = privgen.abort_spec_stack(platform, asyncio_)
                     break
                 except Exception:  # noqa: BLE001
                     continue
-        marker = spec[1] if spec[0] == "ifSession" else privgen.SESSION_MARKER_DEFAULT
+        marker = spec[1] if spec[0] == "ifSession" else (privgen._marker_ast(platform) or privgen.SESSION_MARKER_DEFAULT)
         try:
             rows = privgen.table(platform)
         except Exception:  # noqa: BLE001
@@ -49,7 +51,7 @@ def ctx(platform):
             hooks = privgen.hooks(platform)
         except Exception:  # noqa: BLE001
             hooks = None        # a hook shape that is not modelled: reported by translate(); the real hooks still run
-        _ctx[platform] = dict(rows=rows, default=default, abort=spec, sess=sess, marker=marker, hooks=hooks)
+        _ctx[platform] = dict(rows=rows, default=default, abort=spec, abort_ast=abort_ast, sess=sess, marker=marker, hooks=hooks)
     return _ctx[platform]
 
 
@@ -179,7 +181,40 @@ def build(case):
     dev = PrivDevice(case["platform"], login_mode=case["login"], enable_password=case["dpw"], refuse=refuse, ignore=ignore,
                      pw_limit=case["pwl"], fail_lines=set(case.get("fail", [])), hostname=case.get("host", "r1"),
                      user=case.get("user", "admin"))
-    return case["platform"], dev, {}
+    # `desired`: the constructor's public `default_desired_privilege_level` argument (absent = the platform's own default)
+    return case["platform"], dev, ({"default_desired_privilege_level": case["desired"]} if case.get("desired") else {})
+
+
+def desired_of(case):
+    """the default desired privilege level of the case's configuration (None for custom tables: fixed to the root in `build`)"""
+    if case["platform"] == "custom":
+        return None
+    return case.get("desired") or ctx(case["platform"])["default"]
+
+
+def desired_levels(platform):
+    """every legal NON-default value of the constructor argument `default_desired_privilege_level`: each level name of the table"""
+    c = ctx(platform)
+    return [r[0] for r in c["rows"] if r[0] != c["default"]]
+
+
+def abort_for(case):
+    """the abort shape for the model request: the AST's when it could be read, else the one MEASURED on the live classes under the
+    case's own desired level (see privgen.abort_measured)"""
+    from gen import privgen
+    c = ctx(case["platform"])
+    if c["abort_ast"]:
+        return c["abort"]
+    k = (case["platform"], desired_of(case))
+    if k not in _abort_meas:
+        try:
+            _abort_meas[k] = privgen.abort_measured(case["platform"], desired_of(case))
+        except Exception:  # noqa: BLE001
+            _abort_meas[k] = c["abort"]
+    return _abort_meas[k]
+
+
+_abort_meas = {}
 
 
 def observe(recs, snaps, t, conn, dev):
@@ -241,7 +276,7 @@ def request(case, obs, stack="sync"):
         default, abort, sess = root, ("none",), None
     else:
         c = ctx(case["platform"])
-        rows, default, abort, sess = c["rows"], c["default"], c["abort"], c["sess"]
+        rows, default, abort, sess = c["rows"], desired_of(case), abort_for(case), c["sess"]
     sessions = [o[1] for o in case["ops"] if o[0] == "R"]
     return encode_request(rows, default, case["sec"], abort, sess, {tuple(k) for k, _ in case["blocked"]}, case["dpw"], case["pwl"], list(case.get("fail", [])),
                           device_extras(dev, rows, sessions), case["login"], obs["snaps"], [tuple(o) for o in case["ops"]],
@@ -309,7 +344,7 @@ def oracle(case, obs):
     registered = []
     tainted = False      # an earlier acquisition met the finding's predicate and the belief has been wrong since
     bt = Belief()
-    default = ctx(case["platform"])["default"] if case["platform"] != "custom" else None
+    default = desired_of(case)
     for i, (op, rec) in enumerate(zip(case["ops"], obs["recs"])):
         # the table as it is when this operation runs: base levels + the sessions registered so far
         rows = case_rows(case, registered)
@@ -633,6 +668,15 @@ def gen_cases(ck, tier):
     for p in privgen.PLATFORMS:
         cases += list(lifecycle_cases(rng, p, 2 if tier == "quick" else 3))
         cases += list(lifecycle_cases(rng, p, 0, budget=60 if tier == "quick" else 1200))
+    # drivers constructed with every legal NON-default `default_desired_privilege_level` (each level name of the table): the level the
+    # on_open / on_close hooks acquire and in which their lines must run; acquire_priv itself must not depend on it
+    quick = tier == "quick"
+    for p in privgen.PLATFORMS:
+        for d in desired_levels(p):
+            more = list(lifecycle_cases(rng, p, 2 if quick else 3)) + list(lifecycle_cases(rng, p, 0, budget=10 if quick else 200))
+            more += list(platform_cases(rng, p, SESSION_SETS[p][-1], False, 40 if quick else 600))
+            more += list(fault_cases(rng, p, 6 if quick else 60))
+            cases += [dict(cs, desired=d) for cs in more]
     cases += list(custom_cases(rng, 80 if tier == "quick" else 1500))
     return cases
 
@@ -929,11 +973,12 @@ def run(tier, seed):
             before = c["login"] if not ia or ia - 1 >= len(recs_) else recs_[ia - 1]["mode"]
             pth = (tree_path(rows, before, tgt_ops[-1][1]) if tgt_ops else None) or []
             ck.case(json.dumps(c, sort_keys=True), nontrivial=len(pth) >= 2,
-                    sample={k: c.get(k) for k in ("platform", "host", "user", "login", "ops", "blocked", "dpw", "sec", "pwl")},
+                    sample={k: c.get(k) for k in ("platform", "host", "user", "login", "desired", "ops", "blocked", "dpw", "sec", "pwl")},
                     tags=(c["platform"], f"pathlen={len(pth)}", f"out={last['out']}", f"blocked={min(len(c['blocked']), 4)}",
                           "dpw" if c["dpw"] else "nopw", f"sec={c['sec'] or '-'}", "belief-known" if len(tgt_ops) >= 2 else "belief-unknown",
                           "sessions-interleaved" if any(o[0] == "R" for o in c["ops"][1:]) and tgt_ops else "plain",
                           "reopened-with-hooks" if c.get("hooks") else "single-session",
+                          f"desired={'non-default:' + c['desired'] if c.get('desired') else 'platform-default'}",
                           *((f"fault={c['fault']['point']}/{c['fault']['kind']}",) if c.get("fault") else ()),
                           "host-has-upper" if any(ch.isupper() for ch in c.get("host", "")) else "host-lower"))
         for stack, o in runs:
